@@ -161,7 +161,7 @@ def draw_dialect_spec(rng, tag):
 # A. histories
 # ----------------------------------------------------------------------------------------
 
-FIELD_KINDS = ["date", "int", "optint", "alias", "nt", "list", "inner", "plain"]
+FIELD_KINDS = ["date", "int", "optint", "alias", "nt", "list", "inner", "plain", "bytes", "datetime"]
 MIXIN_SLOTS = {
     "dict": [("dict", False), ("dict", True)],
     "orjson": [("dict", False), ("dict", True), ("jsonb", False), ("json", True)],
@@ -276,6 +276,10 @@ class Family:
             elif kind == "list":
                 ann[f] = List[int]
                 ns[f] = dataclasses.field(default_factory=list)
+            elif kind == "bytes":
+                ann[f] = bytes
+            elif kind == "datetime":
+                ann[f] = datetime.datetime
             elif kind == "inner":
                 ann[f] = self.N
             elif kind == "plain":
@@ -323,6 +327,10 @@ class Family:
                     kw[f] = rng.choice([NT(1, 2), NT(3, 4)])
                 elif kind == "list":
                     kw[f] = rng.choice([[], [1, 2]])
+                elif kind == "bytes":
+                    kw[f] = rng.choice([b"", b"\x00\xff", b"abc"])
+                elif kind == "datetime":
+                    kw[f] = datetime.datetime(2020, 1 + rng.randrange(12), 2, 3, 4, 5)
                 elif kind == "inner":
                     kw[f] = self.N(d=datetime.date(2021, 2, 3), o=rng.choice([None, 1]))
                 elif kind == "plain":
